@@ -134,6 +134,19 @@ func cmdCheck(args []string) {
 	}
 	t0 := time.Now()
 	solveAll(obls, dir, timeout, 10, false)
+	// an undecided obligation (no model) may be a time-out caused by machine load: one retry with twice the
+	// budget and fewer concurrent queries before it is reported
+	var retry []*Obligation
+	for _, o := range obls {
+		if o.Result != nil && o.Goal != nil && (o.Result.Status == "unknown" || o.Result.Status == "timeout") {
+			o.Result = nil
+			retry = append(retry, o)
+		}
+	}
+	if len(retry) > 0 {
+		fmt.Fprintf(os.Stderr, "govc check %s: %d undecided obligation(s), retrying with timeout %ds\n", prop, len(retry), 2*timeout)
+		solveAll(retry, dir, 2*timeout, 5, false)
+	}
 	solverS := time.Since(t0).Seconds()
 
 	// expected obligations (committed): guards against silently vanishing obligations
